@@ -142,6 +142,9 @@ def math_call(ex, st, name, args):
         val = uf('pow', 2)(x, y)
         st.assume(z3.And(z3.Implies(x >= 0, val >= 0), z3.Implies(x > 0, val > 0)))     # libm axioms (DESIGN §8.2)
         return RealV(val, DOUBLE)
+    if name == 'sign':
+        x = real(a[0])
+        return IntV(z3.If(x > 0, I(1), z3.If(x < 0, I(-1), I(0))), parse_type_str('int'))
     if name == 'fpclassify':
         # FP_ZERO = 2, FP_NORMAL = 4 on glibc; subnormal/nan/inf do not exist in ideal arithmetic
         x = real(a[0])
@@ -239,7 +242,7 @@ def call(ex, n, st, q, rd, objn, argn, method, want_lv):
     if objn is None:
         if q and q.startswith('vfps::') and q not in ('vfps::upper_power_of_two_model',):
             return NOMODEL
-        if name in ('copy_n', 'fill_n', 'copy', 'fill', 'accumulate', 'inner_product', 'swap', 'move', 'forward',
+        if name in ('transform', 'copy_n', 'fill_n', 'copy', 'fill', 'accumulate', 'inner_product', 'swap', 'move', 'forward',
                     'make_shared', 'make_unique', 'get', 'norm', 'real', 'imag', 'conj', 'exp', 'polar', 'arg'):
             r = algo_call(ex, n, st, name, argn)
             if r is not NOMODEL:
@@ -604,6 +607,17 @@ def unfold_sumvar(a, ao, b, bo, m, n):
 
 
 def algo_call(ex, n, st, name, argn):
+    if name == 'transform':
+        # unary std::transform over [first,last) into out: element values not modelled (havoc), extent checked
+        a, b, dst = [ex.ev(x, st) for x in argn[:3]]
+        cnt = b.off - a.off
+        ex.safe(st, 'transform-dst-range', z3.Or(cnt <= 0, z3.And(dst.off >= 0, dst.off + cnt <= st.len_of(dst.region))))
+        d = st.array(dst.region, '', FLOAT)
+        fresh = State.fresh(dst.region, d.sort())
+        k = z3.Int('k!tr')
+        st.arr[(dst.region, '')] = z3.Lambda([k], z3.If(z3.And(k >= dst.off, k < dst.off + cnt), z3.Select(fresh, k), z3.Select(d, k)))
+        ex.logw(('r', dst.region))
+        return PtrV(dst.region, dst.off + cnt)
     if name == 'copy_n':
         src, cnt, dst = [ex.ev(a, st) for a in argn]
         if not isinstance(src, PtrV) or not isinstance(dst, PtrV):
@@ -713,6 +727,22 @@ def construct(ex, n, st, ct):
     if '__normal_iterator' in ct.name or 'iterator' in ct.name.split('<')[0]:
         if len(args) == 1:
             return ex.ev(args[0], st)
+    if k == 'vector' and args and 'initializer_list' in (args[0].get('type', {}).get('qualType', '')):
+        il = find_node(args[0], 'InitListExpr')
+        if il is None:
+            raise ExtractionError(f'{ex.unit}: vector from initializer_list without a literal list (line {ex.curline})')
+        elems = [ex.ev(c, st) for c in il.get('inner', [])]
+        region = f'local:{ex.pending_name or "vec"}'
+        st.length[region] = I(len(elems))
+        for key in list(st.arr):
+            if key[0] == region:
+                del st.arr[key]
+        arr = z3.K(z3.IntSort(), z3.RealVal(0))
+        for i_, e_ in enumerate(elems):
+            arr = z3.Store(arr, i_, real(e_))
+        st.arr[(region, '')] = arr
+        st.leafct[(region, '')] = FLOAT
+        return ObjRef(region, ct.name)
     if k == 'vector' and len(args) == 2 and parse_type(args[0].get('type')).kind == 'int':
         # vector(n): n value-initialised elements
         nval = ex.ev(args[0], st)
@@ -822,6 +852,18 @@ def find_string_literal(n):
         return n.get('value', '').strip('"')
     for c in n.get('inner', []) or []:
         r = find_string_literal(c)
+        if r is not None:
+            return r
+    return None
+
+
+def find_node(n, kind):
+    if not isinstance(n, dict):
+        return None
+    if n.get('kind') == kind:
+        return n
+    for c in n.get('inner', []) or []:
+        r = find_node(c, kind)
         if r is not None:
             return r
     return None
